@@ -58,15 +58,18 @@ def replacement(sub, p: dict, edit: str, sel: int) -> Any:
         e = sub.model.enums[t["name"]]
         vals = [v["value"] for v in e["values"]]
         if e["type"]["name"] == "string":
-            pool = [vals[0] + "_x", "", vals[0].upper() + "?", "é"]
-            pool = [x for x in pool if x not in vals]
+            v0 = vals[sel % len(vals)]
+            pool = [v0 + "_x", "", v0.upper() + "?", "é", v0.upper(), v0.capitalize(), v0[:-1], v0 + " ", " " + v0, v0[:1]]
+            pool = [x for x in dict.fromkeys(pool) if x not in vals]
         else:
-            pool = [max(vals) + 1, 0, max(vals) + 1000, UINT_MAX]
-            pool = [x for x in pool if x not in vals]
-        return pool[sel % len(pool)]
+            pool = [max(vals) + 1, 0, max(vals) + 1000, UINT_MAX, min(vals) - 1 if min(vals) > 0 else max(vals) + 2]
+            pool = [x for x in dict.fromkeys(pool) if x not in vals and x >= 0]
+        return pool[(sel // 7) % len(pool)]
     if edit == "literal-different":
-        pool = [t["value"] + "x", "", t["value"].upper(), "other"]
-        pool = [x for x in pool if x != t["value"]]
+        v = t["value"]
+        others = sorted({tt["value"] for _, tt in sub.objects.type_at.items() if tt["kind"] == "stringLiteral"} - {v})
+        pool = [v + "x", "", v.upper(), "other", v[:-1], v[1:], v[:1], " " + v, v + " ", v + "\n", v.capitalize(), "x" + v] + others
+        pool = [x for x in dict.fromkeys(pool) if x != v]
         return pool[sel % len(pool)]
     raise ValueError(edit)
 
